@@ -82,4 +82,24 @@ KERNELS = [
     # stump_wlearner_t::split (used by every node of the decision tree): the side of a value
     K("src_c10_stump_side", "src/wlearner/stump.cpp", r"cluster\.assign\(samples\(i\),\s*(.*?)\);",
       [], [("value", "Z"), ("threshold", "Z")], "c10", ["C10"]),
+    # ---- extension (C10_TreeFit): the greedy fit of dtree_wlearner_t::do_fit -------------------------------------------------
+    # "have the parent node point to the current terminal node": the root's cache has m_parent = 0 while nodes is still empty
+    K("src_c10_tree_has_parent", DT,
+      r"scalar_t dtree_wlearner_t::do_fit\(.*?if \((cache\.m_parent\s*<\s*nodes\.size\(\))\)",
+      [(r"cache\.m_parent", "parent"), (r"nodes\.size\(\)", "nsize")], [("parent", "Z"), ("nsize", "Z")], "c10", ["C10"]),
+    # the link written into the parent's entry: the index of the pair about to be appended
+    K("src_c10_tree_link", DT,
+      r"scalar_t dtree_wlearner_t::do_fit\(.*?nodes\[cache\.m_parent\]\.m_next\s*=\s*(.*?);",
+      [(r"nodes\.size\(\)", "nsize")], [("nsize", "Z")], "c10", ["C10"]),
+    # depth of the two children, the entry each child will link from (index of the entry pushed for side i)
+    K("src_c10_tree_child_depth", DT,
+      r"scalar_t dtree_wlearner_t::do_fit\(.*?ncache\.m_depth\s*=\s*(.*?);",
+      [(r"cache\.m_depth", "depth")], [("depth", "Z")], "c10", ["C10"]),
+    K("src_c10_tree_child_parent", DT,
+      r"scalar_t dtree_wlearner_t::do_fit\(.*?ncache\.m_parent\s*=\s*(.*?);",
+      [(r"nodes\.size\(\)", "nsize")], [("nsize", "Z")], "c10", ["C10"]),
+    # the table index of a leaf entry: the number of tables appended so far
+    K("src_c10_tree_leaf_table", DT,
+      r"scalar_t dtree_wlearner_t::do_fit\(.*?node\.m_table\s*=\s*(tables\.size<0>\(\));",
+      [(r"tables\.size<0>\(\)", "tsize")], [("tsize", "Z")], "c10", ["C10"]),
 ]
